@@ -380,11 +380,17 @@ func c12(r *core.Run) {
 
 	// ---- client programs ----
 	nclients := 2 + src.Intn(3)
+	if r.Tier == "thorough" && src.Bool(1, 4) {
+		nclients = 5 + src.Intn(2) // more clients in the thorough tier
+	}
 	wspec := []*specs.Spec{specA, specB}
 	var tasks []*sched.Task
 	for cl := 0; cl < nclients; cl++ {
 		src.Begin("program")
 		nops := 3 + src.Intn(6)
+		if r.Tier == "thorough" && src.Bool(1, 4) {
+			nops = 8 + src.Intn(6)
+		}
 		type planned struct {
 			kind, arg string
 			run       func() string
